@@ -116,11 +116,11 @@ def leaf_family(ctx, n, spread=6, pinv=0.25, tries=200):
     raise RuntimeError("could not generate a general-position family")
 
 
-def scaled_family(ctx, n, scales=(F(1, 50000), F(1, 20000), F(1, 5000), F(1, 200), F(1000)), pinv=0.25, tries=300):
+def scaled_family(ctx, n, scales=(F(1, 50000), F(1, 20000), F(1, 5000), F(1, 200), F(1000)), pinv=0.25, tries=300, force=None):
     """n integer-coordinate polygons jointly in general position, all multiplied by one exact scale factor (drawings in other
     units).  Integer coordinates keep every crossing point's denominator below 10^9 after scaling, so results stay exact."""
     rng = ctx.rng
-    k = rng.choice(scales)
+    k = rng.choice(scales) if force is None else force
     for _ in range(tries):
         vss = [gen.star_polygon(rng, rng.randint(3, 7), rng.choice([12, 20, 30]), rng.randint(-15, 15), rng.randint(-15, 15), den=1) for _ in range(n)]
         if any(len(set(vs)) != len(vs) for vs in vss):
@@ -134,6 +134,12 @@ def scaled_family(ctx, n, scales=(F(1, 50000), F(1, 20000), F(1, 5000), F(1, 200
             if rng.random() < pinv:
                 vs = vs[::-1]
             out.append([(x * k, y * k) for x, y in vs])
+        # fragile territory (finding K8): the library decides "point on curve" with an ABSOLUTE 1e-6, so a drawing whose features come closer than
+        # that - at ITS unit - is decided differently from the same drawing at unit 1.  Random drawings keep 20x that distance; the catalogued
+        # near-tolerance drawing is a deterministic corpus entry of C01.
+        if gen.separation(out) < 2e-5:
+            ctx.count("scaled-family:rejected-near-tolerance")
+            continue
         ctx.count("scale:" + str(k))
         return out, k
     raise RuntimeError("could not generate a scaled general-position family")
